@@ -209,7 +209,7 @@ def r15_2(prog, rep):
         for b, i, x, line in g.cfg.all_elems():
             if isinstance(x, dict) and x.get("k") == "ret":
                 e = strip_casts(g.cfg.resolve(x["e"]))
-                if const_eval(g, e) == 0 or (e.get("k") == "init" and not [p for p in e["fs"] if p[1] is not None]):
+                if const_eval(g, e) == 0 or (e.get("k") == "init" and all(p[1] is None or const_eval(g, p[1]) == 0 for p in e["fs"])):
                     has = True
         sentinel[name] = has
     n = 0
